@@ -118,8 +118,10 @@ func (handler proveHandler) ServeHTTP(w http.ResponseWriter, r *http.Request) {
 		w.WriteHeader(http.StatusMethodNotAllowed)
 		return
 	}
+	verifPoint("prove.enter")
 	logging.Logger().Info().Msg("received prove request")
 	buf, err := io.ReadAll(r.Body)
+	verifPoint("prove.afterRead")
 	if err != nil {
 		malformedBodyError(err).send(w)
 		return
@@ -135,6 +137,7 @@ func (handler proveHandler) ServeHTTP(w http.ResponseWriter, r *http.Request) {
 			return
 		}
 
+		verifPoint("prove.afterDecode")
 		proof, err = handler.provingSystem.ProveInsertion(&params)
 	} else if handler.mode == DeletionMode {
 		var params prover.DeletionParameters
@@ -145,8 +148,10 @@ func (handler proveHandler) ServeHTTP(w http.ResponseWriter, r *http.Request) {
 			return
 		}
 
+		verifPoint("prove.afterDecode")
 		proof, err = handler.provingSystem.ProveDeletion(&params)
 	}
+	verifPoint("prove.afterProve")
 
 	if err != nil {
 		provingError(err).send(w)
@@ -159,6 +164,7 @@ func (handler proveHandler) ServeHTTP(w http.ResponseWriter, r *http.Request) {
 		return
 	}
 
+	verifPoint("prove.beforeWrite")
 	w.WriteHeader(http.StatusOK)
 	_, err = w.Write(responseBytes)
 
